@@ -92,6 +92,7 @@ def run_modules(chk, wd, quick):
         tag, text = m
         return tag, text, one_module(exe, wd, tag, text, args)
     nbad = 0
+    ninvalid = 0
     seen = set()
     with ThreadPoolExecutor(max_workers=4) as ex:
         for tag, text, res in ex.map(work, mods):
@@ -107,6 +108,7 @@ def run_modules(chk, wd, quick):
             if kind == 'generator':
                 chk.notes.append('module %s: %s' % (tag, detail[:200]))
                 chk.dist('module_features', 'generator-invalid')
+                ninvalid += 1
                 continue
             nbad += 1
             cls = kind + ':' + re.sub(r'[0-9a-f]{6,}|\d+', '#', detail)[:50]
@@ -117,6 +119,13 @@ def run_modules(chk, wd, quick):
             chk.finding('module:%s:%s' % (kind, hashlib.sha1(small.encode()).hexdigest()[:10]),
                         dict(case='module ' + tag, kind=kind, detail=detail, mir=small, original=text, args=['%x,%x' % ab for ab in args]),
                         'the C translation of a generated module is wrong (%s): %s' % (kind, detail[:300]))
+    if ninvalid:
+        chk.log('WARNING: %d of %d modules are not accepted by the interpreter of the checked tree (see notes)' % (ninvalid, len(mods)))
+    if ninvalid * 4 > len(mods):
+        # the module-level half of the check decides nothing when the reference cannot run the modules: that is a broken
+        # check (or a tree whose text reader / interpreter is broken), not a silent pass
+        raise vlib.BuildError('%d of %d generated modules are rejected by MIR_scan_string / MIR_interp of the checked tree: %s' % (
+            ninvalid, len(mods), '; '.join(chk.notes[-2:])[:400]))
     return nbad
 
 
